@@ -59,6 +59,15 @@ CallS(op, to, val, is, os) == IF op \in {CALL, CALLCODE} THEN X(op, <<-2, to, va
 InitCode == <<96, 7, 96, 0, 85, 97, 91, 0, 96, 0, 82, 96, 2, 96, 30, 243>>
 \* store InitCode (16 bytes) right-aligned in memory word 0 -> bytes [16, 32)
 PutInit == <<Raw(<<PUSH1 + 15>> \o InitCode), X(MSTORE, <<0>>)>>
+\*  1 write, succeed                      2 write, REVERT without data        3 write, undefined opcode 0xfe
+\*  4 return 32 bytes (42)                 5 revert with 32 bytes (43)
+\*  6 context probe: LOG1, then CALLER, CALLVALUE, ADDRESS into slots 1..3
+\*  7 SELFDESTRUCT to A                    8 CALL C with value 1, flag into slot 4
+\*  9 own write, CALL C, then RETURNDATASIZE and the first output word into slots 5, 6
+\* 10 calls A back once (re-entrancy, guarded by slot 7)        11 echoes 32 bytes of call data
+\* 12 STATICCALL C, flag and output into slots 4, 6             13 CREATE (value 1) of InitCode, address into slot 6
+\* 14 DELEGATECALL C                      15 write, LOG0, SELFDESTRUCT to C  16 endless loop
+\* 17 calls A back unguarded (mutual recursion down to the depth limit)
 Lib == <<
   (* 1 *) <<X(SSTORE, <<0, 7>>), X(STOP, <<>>)>>,
   (* 2 *) <<X(SSTORE, <<0, 7>>), X(REVERT, <<0, 0>>)>>,
